@@ -11,6 +11,7 @@ import (
 	"go.brendoncarroll.net/p2p/s/swarmutil"
 
 	"verifmc/explore"
+	"verifmc/hx"
 	"verifmc/vrt"
 )
 
@@ -47,7 +48,7 @@ type qop struct {
 
 func qled(x *vrt.Exec) *qledger { return x.Data.(*qledger) }
 
-func (l *qledger) tick() int { return len(l.events) }
+func (l *qledger) tick() int { l.cell.Touch(); return len(l.events) }
 
 func queueScenario(c queueCfg, pb int) *explore.Scenario {
 	sc := &explore.Scenario{Name: c.name(), PB: pb}
@@ -85,7 +86,7 @@ func queueScenario(c queueCfg, pb int) *explore.Scenario {
 			cl := client
 			client++
 			name := fmt.Sprintf("R%d", j)
-			ctx, cf := context.WithCancel(context.Background())
+			ctx, cf := hx.WithCancel(context.Background())
 			cancels[name] = cf
 			vrt.Go(name, func() {
 				call := l.tick()
